@@ -473,6 +473,19 @@ fn good_case(fctx: &fuzz::Ctx, bin: &str, c: &Value, rng: &mut StdRng, rep: &mut
         base.conns = vec![(false, vec![vec![d]])];
     }
     base.cfg = json!({"port": 27015, "retries": 0});
+    // a named host with a request option: the option is part of what the library is asked (and of the expectation)
+    let named = c["host"] == "name";
+    let opt: Option<(&str, &str, &str)> = if !named { None } else if fam == "unreal2" { Some(("--gather-players", "skip", "gather_players")) } else { Some(("--gather-rules", "skip", "gather_rules")) };
+    if named {
+        use std::net::ToSocketAddrs;
+        let first = "localhost:0".to_socket_addrs().ok().and_then(|mut a| a.next()).map(|a| a.ip().to_string());
+        if first.as_deref() != Some("127.0.0.1") {
+            let n = rep.extra.get("named_host_skipped").and_then(|v| v.as_u64()).unwrap_or(0);
+            rep.extra.insert("named_host_skipped".into(), json!(n + 1)); // `localhost` does not name 127.0.0.1 first on this machine
+            return;
+        }
+        base.cfg["extra"] = json!({"hostname": "localhost", opt.unwrap().2: "Skip"});
+    }
     // expectation: the library's own response for the same replies (scripted transport)
     let script = base.script();
     let lib = call_entry(&name, &base.cfg, &script);
@@ -487,11 +500,15 @@ fn good_case(fctx: &fuzz::Ctx, bin: &str, c: &Value, rng: &mut StdRng, rep: &mut
     let set_paths = [json!(["Unreal2", "mutators_and_rules", "mutators"])];
     crate::layout::normalise_unordered(&mut want, &set_paths);
     let served = serve(&base);
-    let args: Vec<String> = ["query", "-g", id, "-i", "127.0.0.1", "-p", &served.port.to_string(), "-f", fmt, "-o", mode,
+    let mut args: Vec<String> = ["query", "-g", id, "-i", if named { "localhost" } else { "127.0.0.1" }, "-p", &served.port.to_string(), "-f", fmt, "-o", mode,
                              "--read-timeout", "2", "--connect-timeout", "2", "--write-timeout", "2"]
         .iter()
         .map(|s| s.to_string())
         .collect();
+    if let Some((flag, val, _)) = opt {
+        args.push(flag.to_string());
+        args.push(val.to_string());
+    }
     let (code, out, err, timed_out) = run_cli(bin, &args);
     served.stop();
     let case = json!({"case": c, "game": id, "args": args[.. 12], "script": script});
